@@ -708,6 +708,16 @@ fn diag_margin(case: &Case, l1: f64) -> f64 {
     }
 }
 
+/// smallest factor by which an equation of a diagonally dominant system has been scaled (1 if none):
+/// the system solvers stop on the residual, so "of the order of the tolerance" is tol / this
+fn row_scale_min(case: &Case) -> f64 {
+    if let Func::DiagDom { signs, .. } = &case.func {
+        signs.iter().map(|s| s.abs()).fold(1.0, f64::min)
+    } else {
+        1.0
+    }
+}
+
 fn scale_of(case: &Case) -> f64 {
     let mut s: f64 = 1.0;
     for g in &case.guess {
@@ -953,6 +963,25 @@ fn gen_diagdom(rng: &mut Rng, n: usize, cm: bool, global_only: bool) -> (Func, f
         (p, (0..n).map(|_| if rng.chance(0.5) { -1.0 } else { 1.0 }).collect())
     } else {
         (vec![], vec![])
+    };
+    // 25 %: the whole system, or single equations, scaled down by powers of two — same roots, same Newton
+    // iterates, same family; whatever compares a determinant, a pivot or a Jacobian entry with an absolute
+    // threshold breaks here (|det J| of a well-conditioned 6x6 system in units of 1e-3 is 1e-18)
+    let (perm, signs) = if rng.chance(0.25) {
+        let (mut p, mut s) = (perm, signs);
+        if p.is_empty() {
+            p = (0..n).collect();
+            s = vec![1.0; n];
+        }
+        let uniform = rng.chance(0.6);
+        let k0 = rng.range(1, 30);
+        for si in s.iter_mut() {
+            let k = if uniform { k0 } else { rng.range(0, 30) };
+            *si *= (2.0f64).powi(-(k as i32));
+        }
+        (p, s)
+    } else {
+        (perm, signs)
     };
     let mut f = Func::DiagDom { a, b, eps, g, c: vec![0.0; n * w], root: root.clone(), perm: vec![], signs: vec![] };
     // c := a x* + eps B g(x*), computed with the very formula f_eval uses
@@ -1365,7 +1394,7 @@ impl Prop for C17 {
         if case.cfg == Cfg::InBasin {
             let d = dist_to_root(case, &x1).unwrap_or(f64::NAN);
             let factor = if e.system() { 2.0 / diag_margin(case, if e.cmplx() { 1.6 } else { 1.0 }).max(1e-3) } else { 2.0 };
-            let bound = factor * case.tol * 1.01 + 1e-12 * scale;
+            let bound = factor * case.tol / row_scale_min(case) * 1.01 + 1e-12 * scale;
             if !ok1 {
                 return violation("no-convergence", &format!("{en}:in-basin-failed"), format!("{}: guess inside the basin of quadratic convergence, max_iter={k}, tol={:e}: reported failure {} (distance to root {:e}) func={:?}", e.name(), case.tol, fmt_res(&s1.result), d, case.func));
             }
@@ -1382,7 +1411,7 @@ impl Prop for C17 {
                     // |z^2+1| <= tol (systems) or |dx| <= tol (scalar): within tol of +-i, generously 5 tol
                     5.0 * case.tol + 1e-10
                 } else if e.system() {
-                    2.0 * case.tol / diag_margin(case, if e.cmplx() { 1.0 } else { 1.0 }).max(1e-3) * 1.05 + 1e-10 * scale
+                    2.0 * case.tol / row_scale_min(case) / diag_margin(case, if e.cmplx() { 1.0 } else { 1.0 }).max(1e-3) * 1.05 + 1e-10 * scale
                 } else {
                     let deg = if let Func::Poly { roots, .. } = &case.func { if e.cmplx() { roots.len() / 2 } else { roots.len() } } else { 1 };
                     (2 * deg + 1) as f64 * case.tol + 1e-10 * scale
